@@ -95,6 +95,31 @@ def handleE (line : String) : Except String String := do
     let low ← parseNat low
     let size ← parseNat size
     return judge "Subpiece" r (Impl.subpieceOp low size a) (Ref.subpieceOp low size a)
+  | ["h", kind, wa, a, b, r] =>
+    -- overflow-checked helpers: result `<hex>` | `none` (sadd/ssub), `<hex>:<0|1>` | `err` (smul)
+    let w ← parseNat wa
+    let x := BitVec.ofNat w (← parseHexNat a)
+    let y := BitVec.ofNat w (← parseHexNat b)
+    let fin (cls m sp : String) : String :=
+      if r != sp then s!"spec class=helper-{cls} expected={sp} impl={r} model={m}"
+      else if r != m then s!"diff class=helper-{cls} model={m} impl={r}" else s!"ok helper-{cls}"
+    match kind with
+    | "sadd" =>
+      let m := match Impl.saddChecked x y with | some v => hexOf v.toNat | none => "none"
+      let sp := if Ref.scarry x y then "none" else hexOf (Ref.add x y).toNat
+      return fin "sadd" m sp
+    | "ssub" =>
+      let m := match Impl.ssubChecked x y with | some v => hexOf v.toNat | none => "none"
+      let sp := if Ref.sborrow x y then "none" else hexOf (Ref.sub x y).toNat
+      return fin "ssub" m sp
+    | "smul" =>
+      let m := match Impl.smulFlag x y with
+        | some (v, f) => s!"{hexOf v.toNat}:{if f then 1 else 0}" | none => "err"
+      let ov := decide (x.toInt * y.toInt ≥ 2 ^ (w - 1)) || decide (x.toInt * y.toInt < -2 ^ (w - 1))
+      let sp := if w > 64 then (if x.toNat == 0 then s!"0:0" else "err")
+                else s!"{hexOf (Ref.mul x y).toNat}:{if ov then 1 else 0}"
+      return fin "smul" m sp
+    | _ => throw "bad helper kind"
   | "d" :: kind :: rest =>
     -- BitvectorDomain: the spec is "Value of the reference result, Top of the result size for unknown"
     let specOf (r : Res) (topSize : Nat) : Option String := match r with
